@@ -12,7 +12,7 @@ NOTE = ("Trusted: go/types, go/ssa, go/packages as used by the checker; the Go t
 claims = {
  "C07": ("Decides on SSA, for every Cache.GetFile call site and for the linker reuse in PatchLinker, that a missing/short entry takes the recompute path: "
          "GetFile errors are only compared with nil and miss-only code never fails; computePkgCache recurses into, merges and stores missing dependency entries; "
-         "the linker is reused only under stamp-and-file guards that bind the file's content (its size is part of the stamp); go-internal's GetFile compares sizes. "
+         "the linker is reused only under stamp-and-file guards that bind the file's content (its size is part of the stamp); go-internal's GetFile compares sizes; garble never decides on the index-only Cache.Get; the entry is stored under the id it is looked up with. "
          "Decides this clause, not that the rebuilt binary equals a cold build.",
          "SSA dominance + must-pass-through + backward dependence slices over go/ssa", "4 C07"),
  "C19": ("Decides on SSA that every filesystem effect in garble (28 create/write/mkdir/remove sites, 12 spawned commands) is rooted in garble's own temp dir, cache, "
@@ -38,11 +38,11 @@ claims = {
  "C06": ("Decides the cache-key clauses: every configuration item (flag, sharedCache field, environment variable, cross-package option) read in the tool-input region (about 320 functions) either influences "
          "the bytes addGarbleToHash writes (appendFlags specialised for forBuildHash=true by boolean constant propagation; data and control influence on live writes, including range-over-func bodies) "
          "or is exempt with a reason; cache ids are GarbleActionID or domain-separated derivations with matching writers and readers; GarbleActionID has one definition; -V=full is answered through addGarbleToHash; "
-         "the linker stamp is written and compared with the same operands and covers every patch file. Decides these clauses, not the completeness of cmd/go's own action IDs.",
+         "the linker stamp is written and compared with the same operands and covers every patch file. Also: a value compiled into package P and derived from a GarbleActionID uses P's own action ID (the pclntab magic follows internal/abi); under -literals every -X variable name enters the hash without a filter; the key of a package's cache entry, which holds its dependencies' obfuscated names, depends on the dependencies' action IDs. Decides these clauses, not the completeness of cmd/go's own action IDs.",
          "configuration read-set vs. hashed-set analysis (call-graph region, SCCP-style specialisation, backward slices) on go/ssa", "4 C06"),
  "C05": ("Decides the operator-algebra and pairing clauses: the encode table (evalOperator) and the emitted-decode table (operatorToReversedBinaryExpr) are read off SSA and proved inverse exhaustively over 256x256 byte pairs per token; "
          "every operator randOperator draws is in both tables and unknown ones panic; every draw reaches one encode and its matching emitted decode; the ext-key statement list is reversed; the size window [8,2048] is used by all three guards; "
-         "the obfuscator skips exactly nosplit/const/-X subtrees and constant expressions of a non-string kind (array lengths must stay constant). States plainly that it decides this clause, not decode(encode(x)) = x for any obfuscator.",
+         "the obfuscator skips exactly nosplit/const/-X subtrees and constant expressions of a non-string kind (array lengths must stay constant); an obfuscated []byte literal is clipped to cap == len. States plainly that it decides this clause, not decode(encode(x)) = x for any obfuscator.",
          "table extraction from go/ssa + exhaustive evaluation over bytes; def-use pairing of operator draws", "4 C05"),
  "C12": ("Decides what each name's salt may depend on, by constant-propagating flagSeed.present() = true/false through the salt functions and slicing the salt handed to hashWithCustomSalt: seeded -> import path (+separator) / struct identity only and no configuration read "
          "by anything reachable; unseeded -> GarbleActionID / addGarbleToHash(struct identity) with addGarbleToHash covering binary id, GOGARBLE, -literals, -tiny, controlflow; hash input salt,seed,name; runtime magic/entry key split the same way; short seeds rejected; the decoded seed is stored and hashed whole (no slicing). "
@@ -84,7 +84,7 @@ claims = {
          "site-vs-site and table-vs-text agreement over go/ssa, go/ast and GOROOT sources", "4 C01"),
  "C02": ("Decides must-pass-through and closed-set clauses: linker flags (-buildid=, -w, -s, buildVersion, importcfg) and compile flags (-dwarf=false, -p, -importcfg, -trimpath with the temp dir first) are data dependencies of every success return; "
          "-trimpath/-buildvcs=false reach both go invocations; the per-file pipeline goes through transformDirectives, transformGoFile, the package rename and printFile; the default //line header precedes all copied bytes and both comment filters keep only //go:; "
-         "the importcfg has only two line kinds; asm files get hashed names; every 'keep the name' and 'skip the identifier' exit is a documented exception. Decides these clauses, not the bytes of any binary.",
+         "the importcfg has only two line kinds; asm files get hashed names; every 'keep the name' and 'skip the identifier' exit is a documented exception, each std exception tied to its import path; the method-signature reflection heuristic marks unnamed struct types only (shared R08.6). Decides these clauses, not the bytes of any binary.",
          "backward dependence of success returns, dominance and exit classification on go/ssa", "4 C02"),
  "C09": ("Decides coverage clauses: literals.Obfuscate runs exactly under flagLiterals && ToObfuscate and its result is returned; the string rewrite is keyed on type information (not narrowed to a syntactic node kind) and replaces the node; "
          "byte composites are handled as &lit and plain, arrays and slices; both paths test [8,2048]; skips are exactly nosplit/const/-X/constant non-string expressions; the seed is read only by twelve reviewed functions and appendFlags is used only for the hash and -toolexec. "
